@@ -23,7 +23,8 @@ import (
 // bytes are read back, /proc/self/maps, /dev/shm and the descriptor table.
 
 var c11Sizes = []int{1, 4095, 4096, 4097, 2 * 4096, 3 * 4096, 4 * 4096, 5 * 4096, 6 * 4096, 7 * 4096, 8 * 4096,
-	12 * 4096, 16 * 4096, 31 * 4096, 32 * 4096, 10000, 100000}
+	12 * 4096, 16 * 4096, 31 * 4096, 32 * 4096, 10000, 100000,
+	1 << 20, 1<<20 + 1, 3<<20 + 4096} // large enough for huge-page alignment games in the allocator
 
 func fdCount() int {
 	ents, err := os.ReadDir("/proc/self/fd")
@@ -68,7 +69,7 @@ func runC11(c *vf.Case) {
 		want += page - rem
 	}
 	fdsBefore := fdCount()
-	prefault := r.Chance(1, 4)
+	prefault := r.Chance(1, 4) || (req >= 1<<20 && r.Bool())
 	b, err := sbytes.NewMirroredBuffer(req, prefault)
 	if err != nil {
 		c.Failf("constructor-failed", "NewMirroredBuffer(%d) failed: %v", req, err)
@@ -299,7 +300,7 @@ func init() {
 	register(&vf.Check{
 		ID:        "C11",
 		Technique: "reference-model monitor (ring positions as plain integers) over random Claim/Commit/Consume/Reset histories for every accepted size class; physical read-back through a window on the first mapping; /proc/self/maps, /dev/shm and fd census after Destroy; checkptr build",
-		Rule: "cases = (requested size from {1,4095,4096,4097,2..8,12,16,31,32 pages,10000,100000}, chosen round-robin by case index) x random history of 50-500 Claim/Commit/Consume/Reset with amounts from {0,1,page-1,page,avail-1,avail,avail+1,size,2*size,MaxInt-{0,1,used,free,size},random}, each ending in Destroy; " +
+		Rule: "cases = (requested size from {1,4095,4096,4097,2..8,12,16,31,32 pages,10000,100000,1 MiB,1 MiB+1,3 MiB+1 page}, with and without prefault, chosen round-robin by case index) x random history of 50-500 Claim/Commit/Consume/Reset with amounts from {0,1,page-1,page,avail-1,avail,avail+1,size,2*size,MaxInt-{0,1,used,free,size},random}, each ending in Destroy; " +
 			"non-trivial = the commits wrapped around the ring end at least once on that size; distinct = (size, call-sequence shape)",
 		Assumptions: []string{
 			"amounts are non-negative",
@@ -307,7 +308,7 @@ func init() {
 			"kernel mmap/munmap behaviour and /proc/self/maps are trusted",
 		},
 		Builds:      func(string) []string { return []string{"checkptr"} },
-		NumCases:    func(tier, build string) int { return vf.Tiered(tier, 17*24, 17*10000) },
+		NumCases:    func(tier, build string) int { return vf.Tiered(tier, 20*24, 20*8500) },
 		Floor:       func(tier string) int { return vf.Tiered(tier, 100, 5000) },
 		CaseTimeout: 60 * time.Second,
 		Run:         runC11,
